@@ -23,6 +23,12 @@ def P(nm):
     return (R(nm + 'x'), R(nm + 'y'))
 
 
+def P3(nm):
+    """a point that carries a time stamp as third component (an observation of a timed trace): the geometry is that of the
+    first two components"""
+    return (R(nm + 'x'), R(nm + 'y'), R(nm + 'time'))
+
+
 def mval(model, name, default=0.0):
     v = (model or {}).get(name)
     if v is None:
@@ -38,6 +44,13 @@ def mval(model, name, default=0.0):
 
 def mpt(model, nm):
     return (mval(model, nm + 'x'), mval(model, nm + 'y'))
+
+
+def mptt(model, nm):
+    """the point as the obligation had it: with its time stamp when the scenario is a timed one"""
+    if (model or {}).get(nm + 'time') is not None:
+        return mpt(model, nm) + (mval(model, nm + 'time'),)
+    return mpt(model, nm)
 
 
 def _w(**k):
@@ -108,6 +121,10 @@ def build(prog, tier):
     rep = verify_function(prog, fv, lambda ctx, it: ([p1, p2], {}),
                           lambda ctx, res: G.distance_post(p1, p2, to_z3(res)), contracts={}, name='distance')
     out.append(('distance', fv, rep, replay_distance))
+    q1, q2 = P3('p1'), P3('p2')
+    rep = verify_function(prog, fv, lambda ctx, it: ([q1, q2], {}),
+                          lambda ctx, res: G.distance_post(p1, p2, to_z3(res)), contracts={}, name='distance[timed-points]')
+    out.append(('distance[timed-points]', fv, rep, replay_distance))
 
     # ---- project (functional spec for all delta in [0, 1/2]; strict C13 statement for delta = 0)
     fv = prog.func(MOD, 'project')
@@ -118,7 +135,8 @@ def build(prog, tier):
         return [s1, s2, p], {'delta': delta}
 
     def goals(ctx, res):
-        (px, py), t = res
+        pt_, t = res        # the degenerate branch returns s1 itself: with a time stamp when s1 carries one
+        px, py = pt_[0], pt_[1]
         res = ((to_z3(px), to_z3(py)), to_z3(t))
         gl = G.project_post(s1, s2, p, delta, res)
         band = G.seg_band(s1, s2)
@@ -132,6 +150,10 @@ def build(prog, tier):
         return gl
     rep = verify_function(prog, fv, setup, goals, contracts={}, name='project')
     out.append(('project', fv, rep, replay_project))
+    s1t, s2t, pt = P3('s1'), P3('s2'), P3('p')
+    rep = verify_function(prog, fv, lambda ctx, it: (ctx.assume(delta >= 0, 2 * delta <= 1), ([s1t, s2t, pt], {'delta': delta}))[1],
+                          goals, contracts={}, name='project[timed-points]')
+    out.append(('project[timed-points]', fv, rep, replay_project))
 
     # ---- distance_point_to_segment (callee contracts for project and distance)
     fv = prog.func(MOD, 'distance_point_to_segment')
@@ -220,7 +242,7 @@ def _real():
 
 def replay_distance(r):
     de = _real()
-    a, b = mpt(r.model, 'p1'), mpt(r.model, 'p2')
+    a, b = mptt(r.model, 'p1'), mptt(r.model, 'p2')
     got = de.distance(a, b)
     exp = math.hypot(a[0] - b[0], a[1] - b[1])
     return (not O.approx(got, exp)), {'inputs': [a, b], 'actual': got, 'expected': exp}
@@ -228,7 +250,7 @@ def replay_distance(r):
 
 def replay_project(r):
     de = _real()
-    s1, s2, p = mpt(r.model, 's1'), mpt(r.model, 's2'), mpt(r.model, 'p')
+    s1, s2, p = mptt(r.model, 's1'), mptt(r.model, 's2'), mptt(r.model, 'p')
     delta = mval(r.model, 'delta')
     res = de.project(s1, s2, p, delta=delta)
     info = {'inputs': {'s1': s1, 's2': s2, 'p': p, 'delta': delta}, 'actual': res}
@@ -353,11 +375,29 @@ def falsifier(chk, seed, n):
                           text=f"distance_point_to_segment({f1},{t1},{t2}) -> {res2}: failed {bad2}",
                           replay={'kind': 'bounded', 'function': 'distance_point_to_segment', 'inputs': [f1, t1, t2],
                                   'actual': res2, 'failed_clauses': bad2})
-    chk.bounded_suite('geometry-falsifier', len(seen) * 2, nontriv, [list(map(list, c)) for c in corpus[:2] + cases[:2]],
+        # the same point-segment case with time stamps as third component of every point (observations of a timed trace, e.g.
+        # the chord between two observations): the geometry is that of the first two components
+        tt = [rnd.choice([0.0, 5.0, 1.6e9, 37.5]) + k_ * rnd.choice([1.0, 5.0, 60.0]) for k_ in range(3)]
+        f1t, t1t, t2t = f1 + (tt[1],), t1 + (tt[0],), t2 + (tt[2],)
+        try:
+            res3 = de.distance_point_to_segment(f1t, t1t, t2t)
+            bad3 = O.check_p2s(f1, t1, t2, res3)
+            pr3 = de.project(t1t, t2t, f1t, delta=0.0)
+            if not bad3 and (abs(pr3[1] - res3[2]) > 1e-12 or not O.approx(de.distance(f1t, t1t), math.hypot(f1[0] - t1[0], f1[1] - t1[1]))):
+                bad3 = ['project-or-distance-with-time-stamps']
+        except Exception as e:
+            res3, bad3 = repr(e), ['raised']
+        if bad3 and not bad2:
+            fails += 1
+            chk.violation(key=f"bounded:timed-points:{'tolerance-band' if band else 'generic'}:{','.join(bad3)}",
+                          text=f"distance_point_to_segment({f1t},{t1t},{t2t}) -> {res3}: failed {bad3} (the same points without time stamps pass)",
+                          replay={'kind': 'bounded', 'function': 'distance_point_to_segment', 'inputs': [f1t, t1t, t2t],
+                                  'actual': res3, 'failed_clauses': bad3})
+    chk.bounded_suite('geometry-falsifier', len(seen) * 3, nontriv, [list(map(list, c)) for c in corpus[:2] + cases[:2]],
                       rule='segment pairs from the half-integer grid (parallel, collinear, touching, crossing, zero-length '
                            'occur by construction), parallel pairs with one-decimal coordinates (not exactly representable: cross product is rounding noise) '
                            'and log-uniform random scales 1e-3..1e4, seeded by VERIF_SEED; each pair '
-                           'also gives one point-segment case; non-trivial = both segments have positive length; results compared '
+                           'also gives one point-segment case, evaluated a second time with time stamps as third component of all three points; non-trivial = both segments have positive length; results compared '
                            'with an exact rational reference', bounds=f"{len(seen)} distinct segment pairs")
 
 
